@@ -131,6 +131,45 @@ def parseSteps (st : State) (p : Program) : Nat → List String → Option (List
 def splitArr (s : String) : List String :=
   if s.startsWith "[" then (((s.drop 1).dropEnd 1).toString.splitOn ";") else [s]
 
+def evalBuild (st : State) (chk : Bool) (p : Program) (args : List String) : Option OpResult :=
+  match ["build"] ++ args with
+  | "build" :: args =>
+    match p.builder with
+    | none => some { m := "nobuilder", s := none }
+    | some (steps, _) =>
+      if steps.length ≠ args.length then none else
+      let init := p.default.getD 0
+      let pairs := steps.zip args
+      -- model: the chain of generated `with_` bodies, arrays unrolled in index order
+      let mfinal : Except String Nat := pairs.foldl (fun acc (stp, a) =>
+        let fd := stp.field
+        let elems := splitArr a
+        (elems.zipIdx).foldl (fun acc (e, i) =>
+          match acc with
+          | .error x => .error x
+          | .ok cur =>
+            match argVal st fd e with
+            | none => .error "badarg"
+            | some v =>
+              match mWith st chk p fd (if fd.array.isSome then toString i else "-") cur v with
+              | .ok (.int _ n) => .ok n
+              | other => .error (showR st other)) acc) (.ok init)
+      let m := match mfinal with
+        | .ok n => showR st (exposedOf st chk p n)
+        | .error e => e
+      -- spec: default (or zero) with every writable field written, in declaration order
+      let writable := p.fields.filter (·.setter)
+      let s : Option String :=
+        if writable.length ≠ args.length then some "spec-arity" else
+        let final : Option Nat := (writable.zip args).foldl (fun acc (fd, a) =>
+          ((splitArr a).zipIdx).foldl (fun acc (e, i) =>
+            match acc, argVal st fd e with
+            | some cur, some v => (patternOf st v).map fun pat => writeSpec p.base.internal cur pat (offOf fd i) fd.ranges
+            | _, _ => none) acc) (some init)
+        final.map fun n => "ok " ++ toHex n
+      some { m := m, s := s }
+  | _ => none
+
 def evalOp (st : State) (chk : Bool) (p : Program) (ws : List String) : Option OpResult :=
   match ws with
   | ["get", f, idx, raw] =>
@@ -141,6 +180,7 @@ def evalOp (st : State) (chk : Bool) (p : Program) (ws : List String) : Option O
       | none => none
     | _, _ => none
   | [kind, f, idx, raw, v] =>
+    if kind = "build" then evalBuild st chk p [f, idx, raw, v] else
     if kind ≠ "with" ∧ kind ≠ "set" then none else
     match findField p f, parseNum raw with
     | some fd, some r =>
@@ -206,41 +246,7 @@ def evalOp (st : State) (chk : Bool) (p : Program) (ws : List String) : Option O
         some { m := m, s := s }
       | _, _ => none
     | _, _ => none
-  | "build" :: args =>
-    match p.builder with
-    | none => some { m := "nobuilder", s := none }
-    | some (steps, _) =>
-      if steps.length ≠ args.length then none else
-      let init := p.default.getD 0
-      let pairs := steps.zip args
-      -- model: the chain of generated `with_` bodies, arrays unrolled in index order
-      let mfinal : Except String Nat := pairs.foldl (fun acc (stp, a) =>
-        let fd := stp.field
-        let elems := splitArr a
-        (elems.zipIdx).foldl (fun acc (e, i) =>
-          match acc with
-          | .error x => .error x
-          | .ok cur =>
-            match argVal st fd e with
-            | none => .error "badarg"
-            | some v =>
-              match mWith st chk p fd (if fd.array.isSome then toString i else "-") cur v with
-              | .ok (.int _ n) => .ok n
-              | other => .error (showR st other)) acc) (.ok init)
-      let m := match mfinal with
-        | .ok n => showR st (exposedOf st chk p n)
-        | .error e => e
-      -- spec: default (or zero) with every writable field written, in declaration order
-      let writable := p.fields.filter (·.setter)
-      let s : Option String :=
-        if writable.length ≠ args.length then some "spec-arity" else
-        let final : Option Nat := (writable.zip args).foldl (fun acc (fd, a) =>
-          ((splitArr a).zipIdx).foldl (fun acc (e, i) =>
-            match acc, argVal st fd e with
-            | some cur, some v => (patternOf st v).map fun pat => writeSpec p.base.internal cur pat (offOf fd i) fd.ranges
-            | _, _ => none) acc) (some init)
-        final.map fun n => "ok " ++ toHex n
-      some { m := m, s := s }
+  | "build" :: args => evalBuild st chk p args
   | ["dbg", alt, raw] =>
     match parseNum raw with
     | some r =>
@@ -284,16 +290,16 @@ structure Out where
 
 def finishEnum (st : State) (e : EnumSyn) : State × List String :=
   match bitenumCheck e with
-  | .ok d => ({ st with types := st.types.push (.enum e.name d), curEnum := none },
+  | .ok d => ({ st.push (.enum e.name d) with curEnum := none },
       [s!"verdict {e.name} accept"])
-  | .error r => ({ st with types := st.types.push (.rejected e.name), curEnum := none },
+  | .error r => ({ st.push (.rejected e.name) with curEnum := none },
       [s!"verdict {e.name} {showReject r}"])
 
 def finishDecl (st : State) (d : DeclSyn) : State × List String :=
   match expand st.resolve (customInfoOf st) d with
-  | .ok p => ({ st with types := st.types.push (.bitfield d.name p), curDecl := none },
+  | .ok p => ({ st.push (.bitfield d.name p) with curDecl := none },
       [s!"verdict {d.name} accept", s!"surface {d.name} {showItems p.items}", s!"builder {d.name} {showBuilder p.builder}"])
-  | .error r => ({ st with types := st.types.push (.rejected d.name), curDecl := none },
+  | .error r => ({ st.push (.rejected d.name) with curDecl := none },
       [s!"verdict {d.name} {showReject r}"])
 
 def step (st : State) (chk : Bool) (line : String) : State × Bool × List String :=
@@ -325,6 +331,7 @@ def step (st : State) (chk : Bool) (line : String) : State × Bool × List Strin
     match st.curDecl, parseFieldLine line with
     | some d, some f => ({ st with curDecl := some { d with fields := d.fields ++ [f] } }, chk, [])
     | _, _ => (st, chk, ["bad-line " ++ line])
+  | "fspec" :: _ => (st, chk, [])
   | ["enddecl"] =>
     match st.curDecl with
     | some d => let (st', out) := finishDecl st d; (st', chk, out)
